@@ -42,10 +42,14 @@ type Model struct {
 	Cfg    Config
 	Allocs map[string]*MAlloc // by client name
 	Dead   []DeadRelay
+	Closed bool            // server closed
+	Gone   map[string]bool // clients whose control connection is closed
 }
 
 // NewModel creates an empty model.
-func NewModel(cfg Config) *Model { return &Model{Cfg: cfg, Allocs: map[string]*MAlloc{}} }
+func NewModel(cfg Config) *Model {
+	return &Model{Cfg: cfg, Allocs: map[string]*MAlloc{}, Gone: map[string]bool{}}
+}
 
 // Expire drops everything whose expiry is not after now.
 func (m *Model) Expire(now time.Time) {
